@@ -21,3 +21,4 @@ open RV.C05
 #print axioms nqparser_doc_refines_reference
 #print axioms nt_write_parse_roundtrip
 #print axioms ntparser_doc_lenient
+#print axioms ntparser_iriref_token
